@@ -46,6 +46,8 @@ contract(
         "direct,2cores": dict(weight_tensor=NWT, weight_box=WBOX, scale_tensor=TConst(None), arch=ARCHF),
         # weights DMA'd into a buffer tensor: the cores' ranges are packed back to back, each rounded up to 16 bytes
         "buffered,2cores": dict(weight_tensor=NWT, weight_box=WBOX, scale_tensor=TConst(None), arch=ARCHF),
+        # weights served from the cache, scales / biases in a standalone scale tensor
+        "direct,1core,scale_tensor": dict(weight_tensor=NWT, weight_box=WBOX, scale_tensor=NWT, arch=ARCHF),
     },
     requires=PORTS_OK + [MEMTYPE_OK],
     variant_requires={
@@ -53,6 +55,11 @@ contract(
         "direct,2cores": ["arch.ncores == 2", "weight_tensor.src_tensor is None", RANGES_NONNEG % (("weight_tensor",) * 5)],
         "buffered,2cores": ["arch.ncores == 2", "weight_tensor.src_tensor is not None and weight_tensor.src_tensor is not weight_tensor",
                             RANGES_NONNEG % (("weight_tensor.src_tensor",) * 5)],
+        "direct,1core,scale_tensor": ["arch.ncores == 1", "weight_tensor.src_tensor is None", "scale_tensor.src_tensor is None",
+                                      "scale_tensor is not weight_tensor", RANGES_NONNEG % (("weight_tensor",) * 5), RANGES_NONNEG % (("scale_tensor",) * 5),
+                                      "scale_tensor.mem_type in (MemType.Permanent_NPU, MemType.Permanent_CPU, MemType.Scratch, MemType.Scratch_fast)",
+                                      # the scale tensor was encoded for the same (core, slice) list as the weights
+                                      "implies(wr(weight_tensor, 0, weight_box) is not None, wr(scale_tensor, 0, weight_box) is not None)"],
     },
     loops={0: dict(unroll=2)},
     ensures=["len(result[0]) == len(result[1])"],
@@ -74,6 +81,14 @@ contract(
             "implies(len(result[0]) == 2, result[1][1] == rng(hl.get_region(weight_tensor.mem_type, arch),"
             " weight_tensor.address + wr(weight_tensor, 1, weight_box).offset, wr(weight_tensor, 1, weight_box).scale_bytes))",
         ],
+        "direct,1core,scale_tensor": [
+            "len(result[0]) == (1 if wr(weight_tensor, 0, weight_box) is not None else 0)",
+            "implies(len(result[0]) == 1, result[0][0] == rng(hl.get_region(weight_tensor.mem_type, arch),"
+            " weight_tensor.address + wr(weight_tensor, 0, weight_box).offset + wr(weight_tensor, 0, weight_box).weight_offset, wr(weight_tensor, 0, weight_box).weight_bytes))",
+            # scales come from the standalone tensor: its own region, address and range
+            "implies(len(result[0]) == 1, result[1][0] == rng(hl.get_region(scale_tensor.mem_type, arch),"
+            " scale_tensor.address + wr(scale_tensor, 0, weight_box).offset, wr(scale_tensor, 0, weight_box).scale_bytes))",
+        ],
         "buffered,2cores": [
             "len(result[0]) == (1 if wr(weight_tensor.src_tensor, 0, weight_box) is not None else 0) + (1 if wr(weight_tensor.src_tensor, 1, weight_box) is not None else 0)",
             # packed: core 0 at the buffer start, core 1 after core 0's range rounded up to 16 bytes (the layout create_dma_op transfers)
@@ -88,7 +103,7 @@ contract(
     },
     returns=TTuple(TList(RANGE_T), TList(RANGE_T)),
     assumptions=["Tensor.address (a property backed by the process-wide TensorAddressMap) is modelled as a field",
-                 "standalone scale tensors (scale_tensor is not None) are not covered by a variant in this revision"],
+                 "standalone scale tensors are covered for one core only"],
 )
 
 
